@@ -38,9 +38,22 @@ def link_kinds(tbl):
     return kinds
 
 
-def fc_arg(tbl):
-    return {"face": {int(f): {a: tuple(None if lk is None else (int(lk[0]), lk[1], bool(lk[2])) for lk in pr)
-                              for a, pr in ent.items()} for f, ent in tbl.items()}}
+def fc_arg(tbl, shuffle=True):
+    """the face_connections argument.  The ORDER in which faces (and the axes of a face) are listed carries no
+    meaning; it is shuffled deterministically (seeded by the table's content) for about half of the tables."""
+    import json
+    import random
+    import zlib
+    items = [(int(f), [(a, tuple(None if lk is None else (int(lk[0]), lk[1], bool(lk[2])) for lk in pr))
+                       for a, pr in ent.items()]) for f, ent in tbl.items()]
+    seed = zlib.crc32(json.dumps([[f, [[a, [None if l is None else list(l) for l in pr]] for a, pr in ent]]
+                                  for f, ent in items]).encode())
+    if shuffle and seed % 2 == 0:
+        rr = random.Random(seed)
+        rr.shuffle(items)
+        for _, ent in items:
+            rr.shuffle(ent)
+    return {"face": {f: dict(ent) for f, ent in items}}
 
 
 def dataset(nfaces, N, extra):
